@@ -134,6 +134,12 @@ func replay(w *world) {
 			w.judgePair("a", *rc.Pair, r, rc)
 		case "b":
 			w.judgeCorrupted("b", *rc.Pair, r, rc.Note+" "+rc.Pair.Mut.String(), rc)
+			if rc.Pair.Mut != nil {
+				base := *rc.Pair
+				base.Mut = nil
+				rec := w.runPair(base, rc)
+				w.judgeSplit(rc.Pair.Mut, len(rec.Frames[1])-1, r, rc.Note+" "+rc.Pair.Mut.String(), rc)
+			}
 		default:
 			w.judgeCancel(g, *rc.Pair, r, rc)
 		}
